@@ -20,6 +20,9 @@ CHECKS['C01']=dict(level='exploration', ref='4.1', technique='deterministic simu
 CHECKS['C02']=dict(level='exploration', ref='4.2', technique='deterministic simulation against an independent spec-model peer (table-driven codec transcribed from the PDFs) over a seeded link; exhaustive destination-count x body-length sweep of the submit types',
    text='The library\'s octets are parsed by a model peer built only from the specification tables (and vice versa: conformant images are framed, dispatched and decoded by the library); every field, the length prefix, command id and sequence offsets must agree octet for octet. The destination-count 0..255 x body-length sweep is enumerated.',
    note='Trusted base: /verif/spec/layouts.spec (transcribed from the five PDFs in /repo/doc). Disagreements are triaged against the PDF text in /verif/spec/txt.')
+CHECKS['C03']=dict(level='fault_enumeration', ref='4.3', technique='deterministic simulation with fault injection on the link: every truncation offset and every length/count-octet substitution of canonical images enumerated, seeded mixed faults, random frames and hostile text to every parser; panic / watchdog / allocation-meter / truncation-soundness oracles',
+   text='Canonical images of all 57 types from the model peer are truncated at every offset (prefix lying or rewritten) and have every length/count octet substituted by {0,1,0x7f,0x80,0xff} (enumerated per corpus image), plus seeded combinations, garbage tails, random frames and hostile text; the receiver runs dispatcher, IDecode (right and wrong type), String, GenEmptyResponse, re-encode and all content parsers under recover, a 20 s no-progress watchdog, a 5 GiB address-space limit and an allocation meter.',
+   note='Allocation bound is deliberately coarse (256 x input + 8 MiB) so that only allocations driven by an unchecked length field trip it; coverage-guided fuzzing named in the quantifier is a different technique and is not used.')
 PENDING = {}
 def load_extra():
     try:
